@@ -235,3 +235,8 @@ Definition expected (ops : list op) (f : N) (c : client) : Prop :=
    connection / destination rule makes a new hub.Client) *)
 Definition wf (ops : list op) : Prop :=
   forall p c q, ops = p ++ Register c :: q -> reg_of p c = false.
+
+(* strings.HasPrefix(client.Topic, "stream/") : what makes a topic a stream.  The harness sends the
+   topic's name and its number; the class is decided here. *)
+Definition topic_of_name (name : string) (n : N) : topic :=
+  if prefix "stream/" name then TStream n else TFeed n.
